@@ -301,6 +301,8 @@ class Own:
         for ini in fn.d.get('inits', []):
             if ini.get('field') == F and ini.get('written'):
                 t = fn.term(ini['expr'], inline=True)
+                if t[0] == 'construct' and t[2] and any(_addr_of_own(a) for a in t[2]) and not any(s_[0] == 'field' and s_[2] != THIS for s_ in _subterms(t)):
+                    continue        # built on the own member from the start: `F(&own_member)` reads nothing of the source
                 if _mentions_other_field(t, F) or t[0] != 'construct' or len(t[2]) >= 1:
                     writes.append((g.entry, -1, 'member initialiser'))
         if fn.d.get('inits') is not None:
@@ -471,11 +473,18 @@ def rule_field_cover(ctx):
                 other = fn.params[0]['name'] if fn.params else None
                 covered = set()
                 delegated = False
+                rebuilt = {}
                 for ini in fn.d.get('inits', []):
                     if ini.get('field') and ini.get('written'):
                         t = fn.term(ini['expr'], inline=True)
                         if _mentions_other_field(t, ini['field']):
                             covered.add(ini['field'])
+                        elif t[0] == 'construct' and t[2]:
+                            # a support structure rebuilt over the own, already transferred member: `sel1(&compressed_intercepts)`
+                            own = [_strip(a)[2][1] for a in t[2] if _addr_of_own(a)]
+                            if own and all(o in covered for o in own) and not any(s_[0] == 'field' and s_[2] != THIS for s_ in _subterms(t)):
+                                covered.add(ini['field'])
+                                rebuilt[ini['field']] = own
                 for i in fn.all_ids():
                     nd = fn.n(i)
                     lhs = rhs = None
